@@ -21,6 +21,30 @@ CHECKS = {
  'C05': ('E1 state-graph', 'explicit-state exploration of operation sequences (general alphabet to a depth + complete limit alphabet at every prefix) with a harness-side model of the absolute limits; stop conditions observed at the moment each iteration begins',
          'All histories <= depth over a 10-op alphabet, plus Step^k . SetEvaluationLimits(g,e,new) . tail for all 40 limit triples, k<=3, 9 tails, on every base solver and two terminations, plus the four scipy-style wrappers over 30 limit pairs; at each iteration start the real generation/evaluation counts, exit flag and termination truth are compared with the modelled limits, and every stop message / warnflag is judged against the final state.',
          'exit request = the flag the signal handler sets; default limits taken from the documented formula; limits <= 5 plus None', '3/C05'),
+ 'C10': ('E3 small-scope enumerator', 'complete enumeration of energy histories / populations / counters on a duck-typed stand-in solver and of every And/Or/When tree to depth 3 under all leaf truth assignments, against an exact-arithmetic evaluation of each documented inequality',
+         'Every built-in (non-collapse) termination factory is evaluated on every energy history up to a length over a dyadic value alphabet (incl. inf), every small population on a grid, every counter/clock reading, for every tolerance/window/target of the alphabet; every compound expression of depth <= 3 with <= 3 members per node over three leaves is evaluated under all 8 leaf truth assignments; plain call, info, self and the condition rebuilt from its reported state must all agree with the reference.',
+         'reference returns None where the docstring does not decide a case (readings R1-R10 in ref/termination.py): those cases are counted, not judged; real solvers are used to validate that the stand-in exposes what conditions read', '3/C10'),
+ 'C12': ('E3 + E2 choice-tree', 'exhaustive enumeration of constraint programs over a coefficient/comparator alphabet, each simplified by the real code under every scripted answer of its random test points (deviation bound), judged point-wise by an exact rational interpreter on a grid plus constructed boundary points',
+         'All one-line and reduced two/three-line linear systems, the rational templates of the statement, three naming schemes; simplify(all=True) with rand= answered from a 4-value alphabet at every draw (choice tree); a point satisfies the input iff it satisfies every line of some returned case; solve on all small full-rank systems; linear_symbolic and symbolic_bounds against direct matrix / interval evaluation.',
+         'non-dyadic coefficients judged off-boundary only; programs outside the stated class are classified by outcome and reported in evidence, not raised (DESIGN section 5)', '3/C12'),
+ 'C13': ('E3 small-scope enumerator', 'complete enumeration of relation texts (comparator x right-hand side x isolated variable x naming scheme) compiled by the real generator and run on a complete input grid including exact boundary and one-ulp neighbours, judged in IEEE and exact rational arithmetic',
+         'Every program xi CMP f of the alphabet, every pair of non-interfering relations, and boundsconstrain over boxes with None/inf/degenerate sides are compiled once and applied to every vector of the grid (list and ndarray): the relation must hold at the output, only xi may change, feasible input is returned unchanged (inputs inside the documented strictness margin may move to the margin).',
+         'strictness margin is mystic.math.tolerance (1e-15 rel+abs); value alphabet of 9 magnitudes incl. +-1e300', '3/C13'),
+ 'C14': ('E3 small-scope enumerator', 'complete enumeration of constraint texts x penalty types x k,h x grid points against exact-rational evaluation of lhs-rhs and of the documented penalty expressions',
+         'Every text of 1-3 lines over the lhs/rhs/comparator alphabet (named, indexed and 12-variable forms) is compiled by generate_conditions / generate_penalty; each condition must equal lhs-rhs in the documented orientation, the penalty must be zero iff all lines hold and equal the documented sum of per-line terms, and penalty(constraint(x)) must be zero for the constraint generated from the same text, at every grid and boundary point.',
+         'epsilon for strict comparators as in C13; penalty types quadratic/linear/uniform (equality and inequality)', '3/C14'),
+ 'C15': ('E1 state-graph + E3', 'explicit-state exploration of every operation sequence (iter, iter(2), clear, store) up to a depth on real penalty objects of every type and nesting, in lock step with a reference model of the documented formulae, evaluated at every grid point in every distinct state',
+         'For each of the 9 penalty types x conditions x k x h x nesting depth 1-3, every op sequence up to the depth is executed on a fresh real penalty; after every operation iteration(), stored() and the closure state are compared with the model, and in every distinct canonical state penalty(x) and error(x) are compared with the documented expression at every point of the grid (zero on the feasible set, positive on violations, inf on ZeroDivisionError).',
+         'barrier_inequality judged against its documented log-barrier expression (DESIGN section 5); value alphabet of 7 points per dimension', '3/C15'),
+ 'C18': ('E3 small-scope enumerator', 'complete Cartesian enumeration of sample vectors x weight vectors x targets x selections over dyadic alphabets through the real measures/distance functions, judged in exact rationals (fractions.Fraction)',
+         'Every impose_* transform, statistic, norm and metric of the statement is run on all sample vectors of length 2-4 over a 5-value alphabet with every weight vector over a 4-value alphabet (and None), every target/selection/trim fraction: targets reached within 1e-12 relative, promised invariants kept, support surgery zeroes exactly the designated weights and keeps total weight and mean, statistics equal their textbook weighted definitions.',
+         'degenerate inputs (zero variance/spread) excluded as the statement says; median family judged under the library\'s own statistic (DESIGN section 5); inputs on a discontinuity of that statistic counted, not judged', '3/C18'),
+ 'C19': ('E3 small-scope enumerator', 'complete enumeration of product-measure shapes (1-3 factors of 1-3 points) with weights/positions/values over small alphabets, observational comparison with explicit weighted sums in exact rationals',
+         'Every measure of the bounded shapes is built with the real classes; flatten/load/unflatten, compose/decompose, pack/unpack round trips must return observationally equal measures, update must change exactly the addressed slots, product weights/positions must follow the documented first-factor-fastest Cartesian order, and expect/expect_var/pof/support/mass/center_mass/range/var must equal explicit sums.',
+         'measure equality is observational (wts, pos, values, flatten()); complete for shapes with <= 4 points, representative strata above (stated in evidence)', '3/C19'),
+ 'C20': ('E1 state-graph + E3', 'explicit-state exploration of every operation sequence up to a depth over monitor operations on two monitors against a list-of-tuples reference, plus complete enumeration of record histories through LoggingMonitor / write_*_file and their readers (incl. the history write, read, overwrite, read)',
+         'Every record of the value alphabet (list/tuple/ndarray/numpy scalars, inf/nan/tiny/huge, ids) and every k; every op sequence <= depth over {record, slice, index, len, +, extend, prepend, Null} for every (kA,kB); every history up to a length through LoggingMonitor(interval, all) then logfile_reader/read_history, and through write_raw/support/converge_file then the matching readers; the reference is compared after every operation and arguments must stay unchanged.',
+         'files live in a per-shard temporary directory; nan compared as nan; list-valued fancy indexing not exercised', '3/C20'),
  'C17': ('E2 choice-tree', 'exhaustive enumeration of every random answer of the cycle-breaking draws (choice-tree DFS, complete first event + deviation bound) over all member tuples/inputs/iteration caps, on the real combinators',
          'Bounded exhaustive exploration of the real and_/or_/not_ under a harness-owned random source: every configuration of the member alphabet x input grid x maxiter, every answer of the first randomisation event and all later answers within a deviation bound; success-path results re-judged against each member. Couplers and penalty combinators are enumerated over a grid against their literal definitions.',
          'member alphabet of 10 functions on 2-vectors; random() answers from a 5-value alphabet, randint complete; python semantics of list equality', '3/C17'),
